@@ -5,6 +5,7 @@ import (
 	"encoding/binary"
 	"encoding/json"
 	"fmt"
+	"github.com/google/uuid"
 	"net/http"
 	"net/http/httptest"
 	"os"
@@ -274,6 +275,8 @@ func RunRigS(t *testing.T, plan *Plan) {
 	config.InitCommonConfig(func(c *config.CommonConfig) {
 		c.Retry = config.RetrySettings{RetryTimes: sc.Knobs.RetryTimes, InitBackOff: 1, MaxBackOff: 1}
 	})
+	// task ids chosen by the server (create without task_id) come from a seeded generator
+	uuid.SetRand(&rngReader{r: NewRng(plan.Seed ^ 0x7a5c ^ uint64(plan.Incarnation)<<40)})
 	synctest.Test(t, func(t *testing.T) {
 		s := NewSim(t, plan)
 		s.Start = time.Now()
@@ -284,6 +287,15 @@ func RunRigS(t *testing.T, plan *Plan) {
 		}
 		r.run()
 	})
+}
+
+type rngReader struct{ r *Rng }
+
+func (x *rngReader) Read(p []byte) (int, error) {
+	for i := range p {
+		p[i] = byte(x.r.Next() >> 24)
+	}
+	return len(p), nil
 }
 
 func validateS(sc *SScript) string {
